@@ -237,6 +237,13 @@ class UnionMember(Typedef):
         super(UnionMember, self).__init__(name, type_name, definition, docstring)
         self.discriminator = discriminator
 
+    def dependencies(self):
+        """ Type of the arm and names used in its discriminator expression. """
+        yield self.type_name
+        if isinstance(self.discriminator, six.string_types):
+            for symbol in re.findall(r"\b[A-Za-z_]\w*\b", self.discriminator):
+                yield symbol
+
 
 """ Composite kinds """
 
